@@ -8,7 +8,10 @@
  * provenance signatures of operands without local names or positions (keys of tables/casts_*.json);
  * `contributing(...)`: every call a value may derive from, expanding multi-definition locals (match arms), closures,
    same-crate helper return values and (one level) parameters at the call sites of the enclosing function.
-Nothing here executes analysed code; it reads the MIR facts only."""
+ * `Concrete`: exact evaluation (Python integers, wrap at every typed operation) of a small integer -> big-integer conversion
+   function's MIR at boundary points, byte containers abstracted to their big-endian magnitude; unknown constructs raise
+   Unrecognised (the rule fails closed).
+No compiled pallas code is run; everything is read from the MIR facts."""
 import re
 
 from . import guards
